@@ -88,6 +88,7 @@ type ItemDirective struct {
 	Bins      []int `json:"bins,omitempty"` // Q histogram over ten bins (sums to s); nil: flat
 	Edge      bool  `json:"edge,omitempty"` // put Q values exactly on the lower bin edge (and 1.0 in the last bin)
 	FailHigh  bool  `json:"fail_high,omitempty"` // two-sided items: failing samples have Q near 1 (bin 9) instead of near 0
+	AlphaEdge int   `json:"alpha_edge,omitempty"` // this many passing samples of bin 0 have P exactly equal to alpha (they pass: P >= alpha)
 }
 
 // RunnerSpec says whether runners are scripted or real.
